@@ -237,7 +237,7 @@ def mutate(rng, lay):
     raw = bytearray(lay["bytes"])
     lo = lay["block_offset"] if lay["block_offset"] is not None else max(0, lay["central_offset"] - 8)
     hi = lay["central_offset"]
-    kind = rng.randrange(9)
+    kind = rng.randrange(10)
     if kind == 0 and hi > lo:                      # flip one byte inside the block
         i = rng.randrange(lo, hi)
         raw[i] ^= 1 << rng.randrange(8)
@@ -264,6 +264,13 @@ def mutate(rng, lay):
         v = struct.pack("<Q", rng.choice([24, 25, hi - lo, hi - lo - 9, 36]))
         raw[lo:lo + 8] = v
         raw[hi - 24:hi - 16] = v
+    elif kind == 9:                                # archive comment holding a second EOCD signature
+        fake = b"PK\x05\x06" + struct.pack("<HHHHII", 0, 0, 1, 1, rng.randrange(200),
+                                            rng.choice([hi, lo, 0, rng.randrange(len(raw) + 30)])) + b"\x00\x00"
+        tail = sb.rand_bytes(rng, 0, 6) + fake + (sb.rand_bytes(rng, 1, 5) if rng.random() < 0.3 else b"")
+        e = lay["eocd_offset"]
+        raw[e + 20:e + 22] = struct.pack("<H", len(tail))
+        raw += tail
     else:                                          # a few random bytes anywhere in block..end
         for _ in range(rng.randint(1, 3)):
             i = rng.randrange(lo, len(raw))
@@ -300,7 +307,7 @@ def run(ck: Check):
                "attributes; 0-3 unknown pairs; duplicate ids; shuffled order; 19% v3.1 without v3; 6% no block); "
                "distinct = distinct file bytes; non-trivial = file with a signing block")
     ncorpus = run_corpus(ck)
-    nvalid = 1500 if ck.quick else 40000
+    nvalid = 1500 if ck.quick else 20000
     stats = {}
     dist = {"no_block": 0, "with_v2": 0, "with_v3": 0, "with_v31": 0, "v31_without_v3": 0, "duplicate_ids": 0,
             "unknown_pairs": 0, "signers_total": 0, "multi_digest_lists": 0, "corpus_witnesses": ncorpus}
@@ -342,7 +349,7 @@ def run(ck: Check):
     ck.compare("file-valid", reqs, real, model)
 
     # malformed files: correspondence only (the property says nothing about them)
-    nmal = 2500 if ck.quick else 60000
+    nmal = 2500 if ck.quick else 30000
     reqs, real = [], []
     errs = {}
     for i in range(nmal):
@@ -357,7 +364,7 @@ def run(ck: Check):
     ck.cover(dist={"mutated_files": nmal, "mutated_outcomes": dict(sorted(errs.items())), **stats})
 
     # values and sequences handed to the inner parsers directly
-    nval = 1500 if ck.quick else 40000
+    nval = 1500 if ck.quick else 20000
     reqs, real = [], []
     a = fresh(TINY)
     outcomes = {}
